@@ -31,7 +31,6 @@ import (
 	"hash/fnv"
 	"os"
 	"path/filepath"
-	"runtime"
 	"strings"
 	"syscall"
 	"testing"
@@ -116,7 +115,6 @@ func (p *bPlan) parts(o op) int { return len(o.cuts) + 1 }
 var errInjectedIO = &os.PathError{Op: "write", Path: "(injected)", Err: syscall.ENOSPC}
 
 func builderHistoryCase(t *rapid.T) {
-	dropPools()
 	var trace []string
 	ft := traceFailer{t: t, trace: &trace}
 
@@ -615,13 +613,6 @@ func builderHistoryCase(t *rapid.T) {
 		"failedCloseThenAbandon": failedCloseAbandoned, "completedAfterFailedEnd": afterFailed, "completedInterleaved": interleaved,
 		"poolKeys": len(pool), "firstPoolKeys": headKeys(pool, 6), "history": headStrings(trace, 40),
 	})
-}
-
-// dropPools empties every sync.Pool of the process (two collections: pool -> victim -> gone), so that
-// a case does not inherit pooled objects of the cases before it: a case stays a function of its draws.
-func dropPools() {
-	runtime.GC()
-	runtime.GC()
 }
 
 func headStrings(s []string, n int) []string {
